@@ -511,6 +511,12 @@ def r4(ctx):
                 if isinstance(init_e, ast.SetComp) and len(init_e.generators) == 1 and not init_e.generators[0].ifs and isinstance(init_e.elt, ast.Tuple) \
                         and isinstance(init_e.generators[0].target, ast.Tuple) and [U(x) for x in init_e.elt.elts] == [U(x) for x in init_e.generators[0].target.elts]:
                     init_e = ast.Call(func=ast.Name(id="set", ctx=ast.Load()), args=[init_e.generators[0].iter], keywords=[])
+                # {(A[k], B[k]) for k in range(n)}  is  set(zip(A[:n], B[:n]))
+                if isinstance(init_e, ast.SetComp) and len(init_e.generators) == 1 and not init_e.generators[0].ifs and isinstance(init_e.generators[0].target, ast.Name) \
+                        and isinstance(init_e.elt, ast.Tuple) and isinstance(init_e.generators[0].iter, ast.Call) and call_name(init_e.generators[0].iter) == "range" \
+                        and len(init_e.generators[0].iter.args) == 1 and all(isinstance(x, ast.Subscript) and U(x.slice) == init_e.generators[0].target.id for x in init_e.elt.elts):
+                    n_ = U(init_e.generators[0].iter.args[0])
+                    init_e = parse_expr("set(zip(" + ", ".join(f"{U(x.value)}[:{n_}]" for x in init_e.elt.elts) + "))")
                 init_t = U(init_e).replace(" ", "").replace("[slice(0,", "[:").replace("[0:", "[:") if init_e is not None else ""
                 import re as _re
                 init_t = _re.sub(r"\[:([^\[\]]*)\)\]", r"[:\1]", init_t)
